@@ -39,10 +39,12 @@ type BoundedClass struct {
 var reClass = regexp.MustCompile(`-CLASS (\S+) count=([0-9]+) first=(.*)$`)
 
 var boundedFor = map[string][]struct{ name, file, test, pkgdir, bound string }{
-	"C01": {{"patsem", "patsem_test.go.txt", "TestVerifPatsem", ".", "patterns of 1-3 segments over literals {a,b,a.b}, variables {x},{x:\\d+},{y:[a-z]+},{num},{z:(?:a|1)(?:b|2)}, prefix/suffix literals, optional tails of depth <= 2 x paths of <= 3 (thorough 4) segments over 11 segment strings"}},
+	"C01": {{"patsem", "patsem_test.go.txt", "TestVerifPatsem", ".", "patterns of 1-3 segments over literals {a,b,a.b}, variables {x},{x:\\d+},{y:[a-z]+},{num},{z:(?:a|1)(?:b|2)}, prefix/suffix literals, optional tails of depth <= 2 x paths of <= 3 (thorough 4) segments over 11 segment strings"},
+		{"patprio", "patsem_test.go.txt", "TestVerifPatPrio", ".", "every ordered pair of 23 (thorough 29) patterns (static, dynamic with literal / variable first segment, custom regexes, optional tails with and without variables) registered on a fresh router, caching off and on (second lookup answered from the cache), x 399 paths of <= 3 segments; oracle: reference matcher + the selection rule of the property (static first, literal-first-segment group, registration order)"}},
 	"C13": {{"rejects", "patsem_test.go.txt", "TestVerifRejects", ".", "13 invalid pattern shapes must panic at registration; 10 valid patterns x 5 option sets x 9 method strings x 18 path strings (incl. empty, white space, non-UTF-8), each lookup twice (cache hit path), must not panic"}},
 	"C06": {{"fallback", "roundtrip_test.go.txt", "TestVerifFallback", ".", "3 route shapes (static, dynamic, irregular) x every subset of 5 (thorough 7) registered methods x 16 configurations (fallback option, '/*' route, method-not-allowed option, InterceptAll) x caching for a third of them x 9 request methods x matching/non-matching path x 2 repetitions, through ServeHTTP with the built-in 404/405 handlers; oracle: the decision list of the property incl. the sorted Allow header"}},
 	"C16": {{"resttable", "resttable_test.go.txt", "TestVerifRestTable", ".", "generated: 128 controller types (every subset of the seven actions) x with/without Uses() x base paths '/' and '/api/' x (route names + 7 methods x 11 paths under the resource prefix, served action and middleware trace compared with the documented table), plus 7 controllers that must be rejected"}},
+	"C11": {{"normeq", "roundtrip_test.go.txt", "TestVerifNormEq", ".", "every string over {a,/,space} up to length 4 (thorough: {a,b,/,space,tab}) as route path P x top level and 3 group prefixes x StrictLastSlash on/off x every such string as request path Q; oracle: a reference normaliser written from the property statement; reached(P,Q) must equal N(P)==N(Q)"}},
 	"C15": {{"urlround", "roundtrip_test.go.txt", "TestVerifURLRound", ".", "7 named routes (static, 1-2 variables, custom regexes, literal suffix/prefix around a variable) x all assignments from 14 (thorough 30) values per free variable incl. space, %, ?, #, non-ASCII, braces x 3 argument forms (rux.M, pairs, builder), each with one extra query argument; the built URL is requested through ServeHTTP"}},
 	"C17": {{"staticfs", "roundtrip_test.go.txt", "TestVerifStaticFS", ".", "StaticDir/StaticFiles(css|js)/StaticFS/StaticFile over a temp tree with marker files inside and outside the root x 8 prefixes x 17 (thorough 30) traversal forms (.., encoded dots and slashes, backslash, doubled slashes, absolute) x 13 file names"}},
 	"C02": {{"patsem", "patsem_test.go.txt", "TestVerifPatsem", ".", "same run as C01: parameter values compared with the reference matcher"}},
